@@ -150,6 +150,29 @@ pub fn run(prop: &'static str, tier: Tier, rep: &mut Report) {
             }
         }
     }
+    // a limit beyond any internal table: one burst of limit + 300 calls at one instant, an
+    // hour-long period; exactly `limit` are admitted
+    for window in [WindowType::Fixed, WindowType::SlidingLog, WindowType::SlidingCounter] {
+        let limit = 70_000usize;
+        let period = 3_600_000_000u64;
+        let (adm, decisions, problem) = run_pattern(window, limit, period, &[(0, limit + 300)]);
+        rep.evaluations += 1;
+        let site = wname(window);
+        let config = format!("ratelimiter bursts window={} limit={} period=1h timeout=0 one burst of {}", site, limit, limit + 300);
+        let hist = json!({"bursts_ms_count": [[0, limit + 300]]});
+        if let Some(p) = problem {
+            push(rep, "undecided_in_first_poll", site, config.clone(), hist.clone(), p);
+            continue;
+        }
+        let admitted = decisions.iter().filter(|d| d.1).count();
+        if admitted > limit || adm.len() > limit {
+            push(rep, "window_overrun", site, config.clone(), hist.clone(), format!("{} of {} calls at one instant were admitted ({} reached the wrapped service) with limit_for_period {}", admitted, limit + 300, adm.len(), limit));
+        }
+        if prop == "C15" && admitted < limit {
+            push(rep, "spare_capacity_not_admitted", site, config.clone(), hist.clone(), format!("only {admitted} of the first {limit} calls of a fresh window were admitted"));
+        }
+        rep.witness("burst_beyond_65536", 1);
+    }
     extremes(prop, rep, &mut push);
 }
 
